@@ -182,6 +182,17 @@ def cases(rng, thorough=False):
         for dt in ("uint8", "int16"):
             add(f"{kind} {dt}", single(rng, lambda b, x: b.pool(x, kind), dtype=dt))
         add(f"{kind} batch 2", single(rng, lambda b, x: b.pool(x, kind), ifm=(2, 8, 8, 4)))
+        for pad in ("SAME", "VALID"):
+            # filter == stride == IFM HxW (fixup_pool_strides rewrites these before the check) left on the CPU for another reason
+            add(f"{kind} whole extent {pad} batch 2", single(rng, lambda b, x, pad=pad: b.pool(x, kind, (6, 5), (6, 5), pad), ifm=(2, 6, 5, 4)))
+            add(f"{kind} whole extent {pad} batch 1", single(rng, lambda b, x, pad=pad: b.pool(x, kind, (6, 5), (6, 5), pad), ifm=(1, 6, 5, 4)))
+
+            def pool_i32(b, x, pad=pad):
+                o = b.pool(x, kind, (4, 4), (4, 4), pad)
+                b.t(o).dtype = "int16"
+                b.t(o).zps = [0]
+                return o
+            add(f"{kind} whole extent {pad} type mismatch", single(rng, pool_i32, ifm=(1, 4, 4, 4)))
         add(f"{kind} stride 4x4 ofm 1x1", single(rng, lambda b, x: b.pool(x, kind, (4, 4), (4, 4), "VALID"), ifm=(1, 4, 4, 4)))
     # ---- fully connected ----------------------------------------------------------------------------------------
     for ifm in ((1, 16), (4, 16), (2, 2, 16), (2, 1, 1, 16), (1, 2, 2, 16)):
@@ -291,6 +302,12 @@ def cases(rng, thorough=False):
                         ((1, 1, 4096, 2), (2,)), ((1, 1, 1, 4097), (3,)), ((1, 1, 1, 4096), (3,)), ((1, 8, 8, 4), (1, 2, 3))):
         for dt in ("int8", "uint8", "int16"):
             add(f"MEAN {shape} axes={axes} {dt}", single(rng, mean(axes), dtype=dt, ifm=shape))
+    import itertools
+    for shape in ((8, 4), (1, 4), (8, 1), (1, 8, 16), (8, 1, 16), (8, 16, 1), (8, 4, 16), (1, 1, 16),
+                  (1, 8, 8, 4), (1, 1, 8, 4), (1, 8, 1, 4), (1, 8, 8, 1), (2, 8, 8, 4), (2, 1, 8, 4)):
+        for r in range(1, len(shape) + 1):
+            for axes in itertools.combinations(range(len(shape)), r):
+                add(f"MEAN rank{len(shape)} {shape} axes={axes}", single(rng, mean(axes, r % 2 == 1), dtype="int8", ifm=shape))
     add("MEAN int16 256x257", single(rng, mean((1, 2)), dtype="int16", ifm=(1, 256, 257, 1)))
     add("MEAN int16 256x256", single(rng, mean((1, 2)), dtype="int16", ifm=(1, 256, 256, 1)))
     add("MEAN keep_dims false", single(rng, mean((1, 2), False)))
